@@ -8,7 +8,7 @@ PART = vp.PART
 _FUNCS = ["Gfa.rm", "Gfa.add_line", "Line.disconnect", "Disconnection.*", "UpdateReferences._update_references",
           "FieldData._set_existing_field (rename)", "FieldData.set/delete (tags)", "SameID._process_not_unique",
           "link References._process_not_unique", "Destructors._unregister_line", "Gfa.__str__ / Line.__str__"]
-_B = "base states gfa1, gfa1b, gfa2, gfa2b (see histlib.BASES); "
+_B = "base states gfa1, gfa1b, gfa2, gfa2b (see histlib.BASES; ordered groups list segments, edges and groups only, a gap is never the only item of a set, no group contains itself); "
 
 META = {
  "property": "C05",
